@@ -259,6 +259,9 @@ func BuildOps(r *fw.Rand, n int) []Op {
 			switch r.Intn(6) {
 			case 0:
 				content = digits(r, 1+r.Intn(200))
+				if r.Intn(6) == 0 {
+					content = digits(r, 1300+r.Intn(1500)) // more than 512 data codewords (version 15 and up)
+				}
 			case 1:
 				content = from(r, "ABCDEFGHIJKLMNOPQRSTUVWXYZ $%*+-./:0123456789", 1+r.Intn(120))
 			case 2:
@@ -281,6 +284,10 @@ func BuildOps(r *fw.Rand, n int) []Op {
 			hints[gozxing.EncodeHintType_ERROR_CORRECTION] = []string{"L", "M", "Q", "H"}[r.Intn(4)]
 			scale := 1 + r.Intn(4)
 			pure := r.Bool()
+			if len(content) > 1000 { // keep the race build fast: large symbols at 1-2 px/module, mostly pure
+				scale = 1 + r.Intn(2)
+				pure = r.Intn(4) != 0
+			}
 			multi := r.Intn(5) == 0
 			dcs := ""
 			if r.Intn(3) == 0 { // decode-side character-set hint, in assorted spellings
